@@ -6,6 +6,7 @@ from ..units.penalty import Penalty
 from ..units.loop import Loop
 from ..units.tau import ComputeTau
 from ..units.autoscale import CreateScaling
+from ..units.step import GNewton
 
 PROP_FILES = ["props/C06.v"]
 TECHNIQUE = "Coq proof + regenerated structural facts + correspondence"
@@ -16,6 +17,9 @@ def run(rep, tier, seed, scratch):
     common.facts_obligations(rep, 'C06', scratch)
     for u in (Penalty(), Loop(), ComputeTau(), CreateScaling()):
         run_unit(rep, u, u.gen(g, tier), scratch)
+    # the Globalized line search fails deliberately, and exactly when all of its trials are rejected (own generator state)
+    gn = GNewton()
+    run_unit(rep, gn, gn.gen(Gen(seed + 31), tier), scratch)
     camp_props.run_single(rep, 'C06', tier, seed, 60, 500)
     # single precision: every dtype-dependent path (empty blocks, fast paths) on data that is exact in binary32
     camp_props.run_single(rep, 'C06', tier, seed + 3, 24, 120, allow={'precision': 'Single', 'iteration_limit': 40, 'validate_input': [True, False]}, name='single_precision')
